@@ -41,6 +41,11 @@ pub enum Op {
     // --- lazy queue
     LazyInsert(u8, u8),
     LazyInsertAll(u8, u8, u8),
+    /// one batch of 40 pairs over all slots, unsorted, every slot listed many times (the last
+    /// value listed for a slot must survive)
+    LazyInsertAllBig,
+    /// a lazy builder held in a variable: `with`, then a lazy insert for the same entity, then `build`
+    LazyBuildInterleaved(u8),
     LazyRemove(u8, u8),
     LazyExecLog,
     /// the same closure, queued from a worker thread of a rayon pool (the push has returned
@@ -539,6 +544,51 @@ impl<'h, A: Kind, B: Kind, C: Kind> Run<'h, A, B, C> {
                     }
                 }
                 self.m.queue.push_back(LazyAct::InsertAll(*s1, *s2, *k, v));
+            }
+            Op::LazyInsertAllBig => {
+                let n = self.m.handles.len();
+                if n < 2 {
+                    return false;
+                }
+                let order: Vec<u8> = (0..40usize).map(|i| ((i * 7 + 3 + i / 5) % n) as u8).collect();
+                let batch: Vec<(Entity, A)> = order.iter().enumerate().map(|(i, s)| (self.m.handles[*s as usize], A::make(700 + i as u32))).collect();
+                self.w.read_resource::<LazyUpdate>().insert_all(batch);
+                for (i, s) in order.iter().enumerate() {
+                    self.m.queue.push_back(LazyAct::Insert(*s, 0, 700 + i as u32));
+                }
+            }
+            Op::LazyBuildInterleaved(k) => {
+                if budget < 1 || *k > 2 {
+                    return false;
+                }
+                let slot = self.m.handles.len() as u8;
+                let v1 = tok_val(slot, *k) + 100;
+                let v2 = tok_val(slot, *k) + 200;
+                let e = {
+                    let ents = self.w.entities();
+                    let lazy = self.w.read_resource::<LazyUpdate>();
+                    let b = lazy.create_entity(&ents);
+                    match k {
+                        0 => {
+                            let b = b.with(A::make(v1));
+                            lazy.insert(b.entity, A::make(v2));
+                            b.build()
+                        }
+                        1 => {
+                            let b = b.with(B::make(v1));
+                            lazy.insert(b.entity, B::make(v2));
+                            b.build()
+                        }
+                        _ => {
+                            let b = b.with(C::make(v1));
+                            lazy.insert(b.entity, C::make(v2));
+                            b.build()
+                        }
+                    }
+                };
+                self.new_slot(e, St::Unmerged, false);
+                self.m.queue.push_back(LazyAct::Insert(slot, *k, v1));
+                self.m.queue.push_back(LazyAct::Insert(slot, *k, v2));
             }
             Op::LazyRemove(s, k) => {
                 if !self.slot_ok(*s) || *k > 2 {
@@ -1472,6 +1522,12 @@ impl<'h, A: Kind, B: Kind, C: Kind> Run<'h, A, B, C> {
             }
             v.push(Op::LazyExecLog);
             v.push(Op::LazyExecLogPool);
+            if n >= 2 && self.m.queue.is_empty() {
+                v.push(Op::LazyInsertAllBig);
+            }
+            if budget >= 1 && self.m.queue.is_empty() {
+                v.push(Op::LazyBuildInterleaved(0));
+            }
             v.push(Op::LazyExecNested);
             v.push(Op::LazyExecObserve(0));
             v.push(Op::LazyExecMaintain);
